@@ -102,13 +102,14 @@ def load_one(lit: LineIterator) -> dict:
                     stacklevel=2,
                 )
             set_four_index_element(two_mo, ii, ik, ij, il, value)
-        elif words[1] != "0":
+        elif words[2] != "0":
             ii = int(words[1]) - 1
             ij = int(words[2]) - 1
             one_mo[ii, ij] = value
             one_mo[ij, ii] = value
-        else:
+        elif words[1] == "0":
             core_energy = value
+        # Lines with only the first index non-zero are orbital energies, which are not loaded.
 
     return {
         "nelec": nelec,
